@@ -851,6 +851,13 @@ func (r *raft) broadcastHeartbeatMessage() {
 	if r.readIndex.hasPendingRequest() {
 		ctx := r.readIndex.peepCtx()
 		r.broadcastHeartbeatMessageWithHint(ctx)
+		// nonVotings take no part in the ReadIndex confirmation and are skipped
+		// by the hinted broadcast above, they still need the periodic heartbeat.
+		// without it a nonVoting in wait state is never resumed for as long as
+		// a ReadIndex request is pending.
+		for id, rm := range r.nonVotings {
+			r.sendHeartbeatMessage(id, pb.SystemCtx{}, rm.match)
+		}
 	} else {
 		r.broadcastHeartbeatMessageWithHint(pb.SystemCtx{})
 	}
